@@ -62,10 +62,24 @@ for _rel, _cls, _fld in config_classes_with_ignore(_REPO):
     DEPENDS.append((f"{_rel}::{_cls}.from_dict", f"hands the section's `{_fld}` list to the rule"))
 for _t in PREDICATES:
     DEPENDS.append((_t, "decides whether a file matches a linter-level ignore pattern"))
+# state hygiene C04 relies on (a suppression verdict must follow the CURRENT files / patterns "in every run"): the shared
+# parser's constructor and accessor, and C08's scans for state kept outside the rule objects
+for _m in ("contracts.c08_state", "contracts.c08_frames"):
+    try:
+        __import__(_m)
+    except BaseException as _e:  # noqa
+        _IMPORT_ERRORS[_m] = repr(_e)[:200]
+for _t in ("src/linter_config/ignore.py::IgnoreDirectiveParser.__init__", "src/linter_config/ignore.py::get_ignore_parser",
+           "src/linter_config/ignore.py::clear_ignore_parser_cache"):
+    DEPENDS.append((_t, "life cycle of the shared parser and of its decision memo"))
 for _t, _why in DEPENDS:
     _c = _api.REGISTRY.get(_t)
     if _c is not None and "C04" not in _c.props:
         _c.props.append("C04")
+for _name in ("c08-module-state",):
+    _cu = getattr(_api, "CUSTOM", {}).get(_name)
+    if _cu is not None and "C04" not in _cu[0]:
+        _cu[0].append("C04")
 
 
 def _mentions_ignore(c, fld):
